@@ -10,6 +10,10 @@ def for_property(pid, tier):
 
 
 MODELS = [
+    {"name": "MC_Sync (2 overlapping heartbeats, <= 2 pages, <= 3 faults: safety + liveness under fairness)",
+     "module": "MC_Sync", "cfg": "MC_Sync_quick.cfg", "props": ["C13"], "tiers": ["quick"], "workers": 8, "timeout": 900},
+    {"name": "MC_Sync (3 overlapping heartbeats, <= 3 pages, <= 5 faults: safety + liveness under fairness)",
+     "module": "MC_Sync", "cfg": "MC_Sync_thorough.cfg", "props": ["C13"], "tiers": ["thorough"], "workers": 16, "timeout": 3000, "heap": "16g"},
     {"name": "MC_BigNat (base 7, all pairs 0..120: add, sub, mul, compare, divmod, base conversion vs native arithmetic)",
      "module": "MC_BigNat", "cfg": "MC_BigNat.cfg", "props": ["C11", "C16"], "tiers": ["quick", "thorough"], "workers": 8, "timeout": 900},
     {"name": "MC_Watchdog (4 providers, quorum 2, band +-2, grid of 6 results, all rounds from all states)",
